@@ -275,15 +275,15 @@ Qed.
 Lemma binop_arrQ_mod {A} (f : A -> Q) (l : list A) (k : positive) :
   binop_val Mod (VA (map (fun z => VQ (f z)) l)) (VZ (Zpos k)) =
   Some (VA (map (fun z => VQ (qmod (f z) (inject_Z (Zpos k)))) l)).
-Proof. unfold binop_val. rewrite (map_opt_map_some _ _ (fun z => VQ (qmod (f z) (inject_Z (Zpos k))))); reflexivity. Qed.
+Proof. unfold binop_val. cbn [bc_l]. rewrite (map_opt_map_some _ _ (fun z => VQ (qmod (f z) (inject_Z (Zpos k))))); reflexivity. Qed.
 
 Lemma binop_arrQ_add {A} (f : A -> Q) (l : list A) (k : Z) :
   binop_val Add (VA (map (fun z => VQ (f z)) l)) (VZ k) = Some (VA (map (fun z => VQ (f z + inject_Z k)%Q) l)).
-Proof. unfold binop_val. rewrite (map_opt_map_some _ _ (fun z => VQ (f z + inject_Z k)%Q)); reflexivity. Qed.
+Proof. unfold binop_val. cbn [bc_l]. rewrite (map_opt_map_some _ _ (fun z => VQ (f z + inject_Z k)%Q)); reflexivity. Qed.
 
 Lemma binop_arrQ_sub {A} (f : A -> Q) (l : list A) (k : Z) :
   binop_val Sub (VA (map (fun z => VQ (f z)) l)) (VZ k) = Some (VA (map (fun z => VQ (f z - inject_Z k)%Q) l)).
-Proof. unfold binop_val. rewrite (map_opt_map_some _ _ (fun z => VQ (f z - inject_Z k)%Q)); reflexivity. Qed.
+Proof. unfold binop_val. cbn [bc_l]. rewrite (map_opt_map_some _ _ (fun z => VQ (f z - inject_Z k)%Q)); reflexivity. Qed.
 
 Lemma call_np_any {A} (p : A -> bool) (l : list A) :
   call "np.any" [VA (map (fun z => VB (p z)) l)] = Some (Some (VB (existsb p l))).
@@ -390,16 +390,49 @@ Proof. apply Qeqb_spec. reflexivity. Qed.
 (** int arrays given as [map (fun i => VZ (g i)) l]: array * int, array // int *)
 Lemma binop_arrZ_mul {A} (g : A -> Z) (l : list A) (k : Z) :
   binop_val Mul (VA (map (fun i => VZ (g i)) l)) (VZ k) = Some (VA (map (fun i => VZ (g i * k)) l)).
-Proof. unfold binop_val. rewrite (map_opt_map_some _ _ (fun i => VZ (g i * k))); reflexivity. Qed.
+Proof. unfold binop_val. cbn [bc_l]. rewrite (map_opt_map_some _ _ (fun i => VZ (g i * k))); reflexivity. Qed.
 
 Lemma binop_arrZ_floordiv {A} (g : A -> Z) (l : list A) (k : Z) :
   (k =? 0)%Z = false ->
   binop_val FloorDiv (VA (map (fun i => VZ (g i)) l)) (VZ k) = Some (VA (map (fun i => VZ (g i / k)) l)).
 Proof.
-  intros H. unfold binop_val. rewrite (map_opt_map_some _ _ (fun i => VZ (g i / k))); [reflexivity|].
-  intros i. cbn [arith]. rewrite H. reflexivity.
+  intros H. unfold binop_val. cbn [bc_l]. rewrite (map_opt_map_some _ _ (fun i => VZ (g i / k))); [reflexivity|].
+  intros i. cbn [bc_l arith]. rewrite H. reflexivity.
 Qed.
 
 Lemma nth_val_last' {A} (f : A -> val) (l : list A) (d : A) (n : nat) :
   l <> [] -> List.length l = n -> nth_val (map f l) (n - 1) = Some (f (last l d)).
 Proof. intros H <-. apply nth_val_last, H. Qed.
+
+(** * 2-D float arrays (rows of rationals) *)
+Definition arr2 (rows : list (list Q)) : val := VA (map (fun r => VA (map VQ r)) rows).
+
+Lemma all_scalar_VQ l : all_scalar (map VQ l) = true.
+Proof. unfold all_scalar. induction l; cbn; auto. Qed.
+
+Lemma np_array_VL_VQ l : np_array (VL (map VQ l)) = Some (VA (map VQ l)).
+Proof.
+  unfold np_array.
+  assert (R : rect (VL (map VQ l)) = true).
+  { cbn [rect]. apply andb_true_intro. split.
+    - induction l; cbn; auto.
+    - destruct l as [|x t]; cbn [map]; [reflexivity|]. induction t; cbn; auto. }
+  rewrite R. cbn [to_array]. rewrite (map_opt_map_some _ _ VQ); [reflexivity|]. reflexivity.
+Qed.
+
+Lemma ones_like_arr2 rows :
+  ones_like (arr2 rows) = Some (VA (map (fun r => VA (map (fun _ : Q => VQ 1) r)) rows)).
+Proof.
+  unfold arr2. cbn [ones_like].
+  rewrite (map_opt_map_some _ _ (fun r => VA (map (fun _ : Q => VQ 1) r))); [reflexivity|].
+  intros r. cbn [ones_like]. rewrite (map_opt_map_some _ _ (fun _ : Q => VQ 1)); reflexivity.
+Qed.
+
+Lemma mul_ones_arr2 rows (v : Q) :
+  binop_val Mul (VA (map (fun r => VA (map (fun _ : Q => VQ 1) r)) rows)) (VQ v) =
+  Some (VA (map (fun r => VA (map (fun _ : Q => VQ (1 * v)%Q) r)) rows)).
+Proof.
+  unfold binop_val. cbn [bc_l].
+  rewrite (map_opt_map_some _ _ (fun r => VA (map (fun _ : Q => VQ (1 * v)%Q) r))); [reflexivity|].
+  intros r. cbn [bc_l]. rewrite (map_opt_map_some _ _ (fun _ : Q => VQ (1 * v)%Q)); reflexivity.
+Qed.
